@@ -24,8 +24,23 @@ def feeds_switch(body, local):
             if rv['k'] == 'use' and op_local(rv['op']) in cur:
                 nxt.add(s['lhs']['l'])
         if not nxt - cur:
-            return False
+            break
         cur |= nxt
+    # the answer packed into a tuple / struct that is then matched on (`match (already_observed, live, tombstone) { .. }`),
+    # or returned by the function (`already_observed || ..` as the tail expression): it still steers the outcome
+    fl = Flow(body)
+    fw = fl.forward([local], stop=[])
+    for i, blk in enumerate(body.blocks):
+        t = blk['t']
+        if t['k'] == 'switch' and not blk['cleanup']:
+            dl = op_local(t['discr'])
+            if dl in fw:
+                return True
+            pl = op_place(t['discr'])
+            if pl and pl['l'] in fw:
+                return True
+    if 0 in fw and body.local_ty(0) == 'bool':
+        return True
     return False
 
 
